@@ -358,6 +358,8 @@ val count : (stmt -> bool) -> stmt list -> nat
 
 val net_counts : net -> nat list
 
+val wg_bufInitWG : wgid
+
 val ch_send_sendFileDataV2_0 : chan
 
 val ch_send_ReadData_0 : chan
@@ -367,8 +369,6 @@ val ch_send_ReadData_1 : chan
 val ch_send_CalculateMD5_0 : chan
 
 val ch_send_EncodeData_0 : chan
-
-val ch_send_transfer_bufInitCh : chan
 
 val ch_send_SendData_0 : chan
 
